@@ -685,6 +685,7 @@ fn main() {
   let mut gen_cases: Vec<vcore::illtyped::Ill> = vcore::illtyped::conformance();
   gen_cases.extend(vcore::illtyped::visibility());
   gen_cases.extend(vcore::illtyped::scope_escape());
+  gen_cases.extend(vcore::illtyped::bounds());
   for a in vcore::illtyped::arity() {
     if !a.well_typed {
       gen_cases.push(vcore::illtyped::Ill { kind: "call-arity-or-argument-type", what: a.what, modules: vec![("Main".into(), a.text)], target: "Main".into() });
@@ -741,7 +742,7 @@ fn main() {
       "modules_mutated": modules.len(),
       "mutants_and_caught_per_fault_kind": kinds.iter().map(|(k, (a, b))| (k.to_string(), json!([a, b]))).collect::<BTreeMap<_, _>>(),
       "full_pipeline_compile_checks": full_compiles.load(Ordering::Relaxed),
-      "generated_ill_typed_programs": {"count": gen_checked.load(Ordering::Relaxed), "families": "interface conformance (3 class kinds x missing method named m/init, missing function, 4 wrong implementations), visibility (10 uses of private classes/members from another module + same-named class), scope escape (16 uses of a binding just outside its scope: if-let / match / or-pattern / block / lambda / pattern / parameter), call arity (9 callee kinds x 0..4 arguments x 6 kinds of last argument, all but the well-typed ones)"},
+      "generated_ill_typed_programs": {"count": gen_checked.load(Ordering::Relaxed), "families": "interface conformance (3 class kinds x missing method named m/init, missing function, 4 wrong implementations), visibility (10 uses of private classes/members from another module + same-named class), scope escape (16 uses of a binding just outside its scope: if-let / match / or-pattern / block / lambda / pattern / parameter), bound violations (16: inferred / explicit / annotation / super-type / forwarded / class-bound type arguments that do not satisfy the bound), call arity (9 callee kinds x 0..4 arguments x 6 kinds of last argument, all but the well-typed ones)"},
       "inference_shapes": {"trees_with_wrong_leaf_checked": shapes_checked.load(Ordering::Relaxed), "contexts": shape_contexts.len(), "max_internal_nodes_all_contexts": max_internal, "internal_nodes_first_two_contexts": deep_internal, "well_typed_twin_rejected_too": shapes_vacuous.load(Ordering::Relaxed),
         "grammar": "E ::= Option.None() | Option.Some(1) | Option.Some(\"oops\") | Main.id(E) | { let z<depth> = 1; E } | Main.app(() -> E) | if c {E} else {E} | match o {None -> E, Some(_) -> E} | Main.first(E, E)"},
       "exhaustive": true,
